@@ -356,6 +356,17 @@ func c14(ctx *run.Ctx) {
 		if si%9 == 4 {
 			lens = append(lens, 640) // several years of daily bars
 		}
+		if si < len(base) {
+			// a market that does not move (whole windows of equal closes, ranges
+			// and volumes), for every base strategy: windows without any change
+			// are where a ratio has no value and a guard may swallow one
+			for _, class := range []string{gen.Flat, gen.Halt} {
+				class := class
+				ctx.Case(fmt.Sprintf("strat/%d/%s", si, class), func(cc *run.Case) {
+					c14Check(cc, ns, class, 2*ns.Warm+70)
+				})
+			}
+		}
 		for _, n := range lens {
 			n := n
 			if n <= ns.Warm {
